@@ -59,14 +59,14 @@ def no_fault(s):
 def gen_cases(pid, tier, rng):
     wrappers = ['D'] if pid == "C02" else ['H', 'B', 'HB', 'BB', 'D', 'FB']
     cases = []   # (wrapper, pieces(list of str), sched(list))
-    # thorough: exhaustive to length 5 for the one wrapper of C02 (2*10^7 cases, ~15 min, ~12 GB); C06 has five wrappers:
-    # exhaustive to length 4 plus a sample of length 5 keeps it at ~10^7 cases
-    L = 3 if tier == "quick" else (5 if pid == "C02" else 4)
+    # thorough: exhaustive to length 4 over the 11 symbols plus a sample of length 5-6 (30000 for the one wrapper of C02, 4000 for
+    # the six of C06) keeps a run at ~10^7 cases, some minutes and < 10 GB; length 5 exhaustively was 6*10^7 cases and 35 GB
+    L = 3 if tier == "quick" else 4
     strings = []
     for l in range(0, L + 1):
         strings += [list(t) for t in itertools.product(ALPHA, repeat=l)]
-    if tier != "quick" and L < 5:
-        strings += [[rng.choice(ALPHA) for _ in range(5)] for _ in range(4000)]
+    if tier != "quick":
+        strings += [[rng.choice(ALPHA) for _ in range(rng.choice([5, 5, 6]))] for _ in range(30000 if pid == "C02" else 4000)]
     for _ in range(300 if tier == "quick" else 3000):
         n = rng.choice([6, 8, 17, 64, 300, 4096 if tier != "quick" else 1000])
         strings.append([rng.choice(ALPHA + ['b', ' ', '\n', '\0', '\x7f', 'ÿ', ' ', '!', '\t', 'c', 'd', '§', '¼', '¾', 'ç', 'æ', 'þ', '¦', '、', '\u2026']) for _ in range(rng.randint(4, n))])
@@ -209,10 +209,10 @@ def run(pid, tier):
         if why: oracle_fail.append((c, a, why))
     for c in cases[:3] + cases[len(cases)//2:len(cases)//2+2]:
         chk.sample(dict(case=line_of(c), text=expected_text(c)))
-    chk.cov["rule"] = ("strings over {<,>,&,\",',a,e-acute,euro,U+1D11E} exhaustive to length %d (C06 thorough: 4, plus 4000 of length 5) plus random to 4 KiB; all chunkings of short strings into write_str pieces; "
+    chk.cov["rule"] = ("strings over {<,>,&,\",',a,e-acute,euro,U+1D11E} exhaustive to length %d (thorough: plus a sample of length 5-6) plus random to 4 KiB; all chunkings of short strings into write_str pieces; "
                        "schedules exhaustive over {a1,a2,a7,i,f7,a0} to length %d, a failure and a zero-accept at every offset, random long ones; wrappers %s. "
                        "non-trivial = text has a special byte and (several pieces or a non-empty schedule); distinct by case line") % (
-                        3 if tier == "quick" else (5 if pid == "C02" else 4), 3 if tier == "quick" or pid != "C02" else 4, "D" if pid == "C02" else "H,B,HB,BB,D")
+                        3 if tier == "quick" else 4, 3 if tier == "quick" or pid != "C02" else 4, "D" if pid == "C02" else "H,B,HB,BB,D")
     chk.notes["result_histogram"] = hist
     chk.assumptions += ["Display impls are well-behaved (stop at the first fmt error)", "sinks follow io::Write's contract and do not override write_all"]
     # the model as the theorems see it (vm_compute inside Coq) against the model as the correspondence runs it (extracted OCaml)
